@@ -222,6 +222,7 @@ func checkC15(c *Ctx, r *Report) {
 	c.checkStorageKeys(r, cfg)
 	c.checkConfigBoundsAll(r, cfg)
 	c.checkAttrLookup(r)
+	c.checkSubst(r)
 }
 
 // checkAttrLookup: "configured value, else default, else error" — presence and value of an attribute must come
@@ -301,6 +302,78 @@ func (c *Ctx) checkAttrLookup(r *Report) {
 		r.Fail(key, c.pos(inj.Pos()), "the chain configured value → declared default → error is broken (default consulted on miss=%v, error without default=%v)", defaultOnMiss, errorOnNoDefault)
 	default:
 		r.OK(key, "%d comma-ok leaf look-ups; default consulted exactly on a miss; no default ⇒ error", nLook)
+	}
+}
+
+// checkSubst: a value of the form ${key} is replaced by the top-level property `key` (camel-cased) and a missing
+// property is an error.
+func (c *Ctx) checkSubst(r *Report) {
+	inj := c.logFunc("injectAttribute")
+	if inj == nil {
+		return
+	}
+	key := "C15.subst:" + fname(inj)
+	fr := &Frame{Fn: inj}
+	found := false
+	var bad []string
+	eachInstr(inj, func(in ssa.Instruction) {
+		lk, ok := in.(*ssa.Lookup)
+		if !ok || !lk.CommaOk {
+			return
+		}
+		kp := c.prov(lk.Index, fr).String()
+		if !strings.Contains(kp, "toCamelKey(slice:slice(") {
+			return
+		}
+		found = true
+		if !strings.Contains(kp, ", 2, binop:-(builtin:len(") || !strings.Contains(kp, ", 1))") {
+			bad = append(bad, "the property name is not the text between `${` and `}`: "+kp)
+		}
+		var pre, suf bool
+		for _, g := range guardsOfInstr(in) {
+			if call, ok := g.Cond.(*ssa.Call); ok && g.Polarity {
+				if k, ok := constString(callArg(call, 1)); ok {
+					if calleeIs(call, "strings", "", "HasPrefix") && k == "${" {
+						pre = true
+					}
+					if calleeIs(call, "strings", "", "HasSuffix") && k == "}" {
+						suf = true
+					}
+				}
+			}
+		}
+		if !pre || !suf {
+			bad = append(bad, "substitution is not restricted to values of the form ${…}")
+		}
+		// miss ⇒ error
+		missErr := false
+		if refs := lk.Referrers(); refs != nil {
+			for _, u := range *refs {
+				if ex, ok := u.(*ssa.Extract); ok && ex.Index == 1 {
+					if rr := ex.Referrers(); rr != nil {
+						for _, q := range *rr {
+							if iff, ok := q.(*ssa.If); ok {
+								fb := iff.Block().Succs[1]
+								if ret, ok := fb.Instrs[len(fb.Instrs)-1].(*ssa.Return); ok && !returnsNilErr(ret, fb) {
+									missErr = true
+								}
+							}
+						}
+					}
+				}
+			}
+		}
+		if !missErr {
+			bad = append(bad, "a missing property does not make the injection fail")
+		}
+	})
+	switch {
+	case !found:
+		r.Fail(key, c.pos(inj.Pos()), "no ${key} substitution against the top-level properties found")
+	case len(bad) > 0:
+		r.Fail(key, c.pos(inj.Pos()), "%s", strings.Join(uniq(bad), "; "))
+	default:
+		r.OK(key, "${key} → top-level property toCamelKey(key); only for values of that form; absent property ⇒ error")
 	}
 }
 
